@@ -137,7 +137,8 @@ func checkC17(c *Ctx) {
 		checkLowerMap(c, ml)
 	}
 	ruleGFMSet(c)
-	c.Assume("agreement of filterRaw's comment/CDATA/declaration scanner with the WHATWG tokenizer is a language-equivalence question and is not decided")
+	ruleFRAutomaton(c)
+	c.Assume("FR-AUTOMATON decides only that skip states end no later than the tokenizer's construct; full agreement of filterRaw's tag-name scanning with the WHATWG tokenizer (e.g. `<3 <script>`) is not decided")
 }
 
 // allCallSitesFiltered: every static call of fn lies behind a FilterTag != nil edge in its caller.
@@ -305,8 +306,249 @@ func init() {
 			Old: "\tif r.FilterTag != nil && r.FilterTag(r.dst[start+1:]) {\n\t\tr.dst = r.dst[:start]\n\t\tr.dst = append(r.dst, \"&lt;/\"...)", New: "\tif r.FilterTag(r.dst[start+1:]) {\n\t\tr.dst = r.dst[:start]\n\t\tr.dst = append(r.dst, \"&lt;/\"...)", Expect: "NILFILTER"},
 		Control{Name: "closeTag-skips-filter", Props: []string{"C17"}, File: "html_renderer.go",
 			Old: "\tif r.FilterTag != nil && r.FilterTag(r.dst[start+1:]) {\n\t\tr.dst = r.dst[:start]\n\t\tr.dst = append(r.dst, \"&lt;/\"...)\n\t\tr.dst = append(r.dst, name.String()...)\n\t}\n\tr.dst = append(r.dst, '>')", New: "\t_ = start\n\tr.dst = append(r.dst, '>')", Expect: "HTX-EMIT"},
+		Control{Name: "pi-state-wired-up", Props: []string{"C17"}, File: "html_renderer.go",
+			Old: "\t\t\t\tcase hasHTMLDeclarationPrefix(rawHTML[i:]):", New: "\t\t\t\tcase hasBytePrefix(rawHTML[i:], processingInstructionPrefix):\n\t\t\t\t\tstate = piState\n\t\t\t\t\ti += len(processingInstructionPrefix)\n\t\t\t\tcase hasHTMLDeclarationPrefix(rawHTML[i:]):", Expect: "FR-AUTOMATON/filterRaw:state[\"<?\"]"},
+		Control{Name: "comment-bang-terminator-dropped", Props: []string{"C17"}, File: "html_renderer.go",
+			Old: "\t\t\tcase hasBytePrefix(rawHTML[i:], \"--!>\"):\n\t\t\t\t// HTML tokenizers also end a comment here.\n\t\t\t\tstate = copyState\n\t\t\t\ti += len(\"--!>\")\n", New: "", Expect: "FR-AUTOMATON/filterRaw:state[\"<!--\"]"},
+		Control{Name: "comment-entry-skips-dashes", Props: []string{"C17"}, File: "html_renderer.go",
+			Old: "\t\t\t\t\ti += len(\"<!\")", New: "\t\t\t\t\ti += len(htmlCommentPrefix)", Expect: "FR-AUTOMATON/filterRaw:state[\"<!--\"]:entry"},
+		Control{Name: "neg-decl-state-exits-via-prefix-test", Props: []string{"C17"}, File: "html_renderer.go", Negative: true,
+			Old: "\t\t\tif rawHTML[i] == '>' {\n\t\t\t\tstate = copyState\n\t\t\t}\n\t\t\ti++", New: "\t\t\tif hasBytePrefix(rawHTML[i:], \">\") {\n\t\t\t\tstate = copyState\n\t\t\t}\n\t\t\ti++"},
 		Control{Name: "neg-GFM-as-switch", Props: []string{"C17"}, File: "html_renderer.go", Negative: true,
 			Old: "\treturn tagAtom == atom.Title ||\n\t\ttagAtom == atom.Textarea ||\n\t\ttagAtom == atom.Style ||\n\t\ttagAtom == atom.Xmp ||\n\t\ttagAtom == atom.Iframe ||\n\t\ttagAtom == atom.Noembed ||\n\t\ttagAtom == atom.Noframes ||\n\t\ttagAtom == atom.Script ||\n\t\ttagAtom == atom.Plaintext",
 			New: "\tswitch tagAtom {\n\tcase atom.Title, atom.Textarea, atom.Style, atom.Xmp, atom.Iframe, atom.Noembed, atom.Noframes, atom.Script, atom.Plaintext, atom.Object:\n\t\treturn true\n\t}\n\treturn false"},
 	)
+}
+
+// ---------------------------------------------------------------------------------------------
+// FR-AUTOMATON: the skip states of filterRaw end no later than the construct ends for an HTML tokenizer.
+
+type frTransition struct {
+	from    map[int64]bool
+	to      int64
+	trigger string
+	advance int64
+	pos     token.Pos
+}
+
+func ruleFRAutomaton(c *Ctx) {
+	c.Rule("FR-AUTOMATON", "filterRaw skips over comments, declarations and similar constructs without looking for tags. Each skip state, identified by the constant prefix that enters it, must be left no later than an HTML tokenizer (WHATWG) leaves the construct: a comment entered at `<!--` ends at `-->` and at `--!>`, and the entry may consume at most `<!` so that the abrupt forms `<!-->` and `<!--->` are found; `<![CDATA[` outside foreign content, `<!x…` and `<?` are bogus comments that end at the first `>`. The transition table (entry prefix, state, exit strings, entry advance) is extracted from the state variable's phi edges and the dominating prefix tests; a state entered by an unknown prefix is undecided.")
+	p := c.P
+	fn := p.Method("renderState", "filterRaw")
+	if !c.NeedFunc("FR-AUTOMATON", fn, "(*renderState).filterRaw") {
+		return
+	}
+	// header, state phi, index phi
+	var header *ssa.BasicBlock
+	var idx *ssa.Phi
+	for _, l := range naturalLoops(fn) {
+		iff := blockIf(l.header)
+		if iff == nil {
+			continue
+		}
+		if bo, ok := iff.Cond.(*ssa.BinOp); ok && bo.Op == token.LSS {
+			if ph, ok := bo.X.(*ssa.Phi); ok && ph.Block() == l.header {
+				if _, ok := isBuiltinCall(bo.Y, "len"); ok {
+					header, idx = l.header, ph
+				}
+			}
+		}
+	}
+	if header == nil {
+		c.Undecided("FR-AUTOMATON", "filterRaw:loop", fn.Pos(), "scanning loop `for i < len(rawHTML)` not recognised")
+		return
+	}
+	var state *ssa.Phi
+	for _, in := range header.Instrs {
+		ph, ok := in.(*ssa.Phi)
+		if !ok {
+			break
+		}
+		if ph == idx {
+			continue
+		}
+		// the state variable: compared with constants by an EQL whose other side is constant, and fed by constants
+		cmp := false
+		for _, r := range refsOf(ph) {
+			if bo, ok := r.(*ssa.BinOp); ok && bo.Op == token.EQL {
+				if _, ok := constInt(bo.Y); ok {
+					cmp = true
+				}
+			}
+		}
+		nConst := 0
+		for _, e := range ph.Edges {
+			if _, ok := constInt(e); ok {
+				nConst++
+			}
+		}
+		if cmp && nConst >= 2 {
+			state = ph
+		}
+	}
+	if state == nil {
+		c.OK("FR-AUTOMATON", "filterRaw:stateless", fn.Pos(), "filterRaw has no skip states: every `<` is examined")
+		return
+	}
+	var copyState int64
+	for i, pr := range header.Preds {
+		if !header.Dominates(pr) {
+			copyState, _ = constInt(state.Edges[i])
+		}
+	}
+	bs := newBSET(p)
+	var dom []int64
+	seenV := map[int64]bool{}
+	var collect func(v ssa.Value, seen map[ssa.Value]bool)
+	collect = func(v ssa.Value, seen map[ssa.Value]bool) {
+		if seen[v] {
+			return
+		}
+		seen[v] = true
+		if k, ok := constInt(v); ok {
+			if !seenV[k] {
+				seenV[k] = true
+				dom = append(dom, k)
+			}
+			return
+		}
+		if ph, ok := v.(*ssa.Phi); ok {
+			for _, e := range ph.Edges {
+				collect(e, seen)
+			}
+		}
+	}
+	collect(state, map[ssa.Value]bool{})
+	reach := bs.reachUnderSym(fn, func(v ssa.Value) bool { return v == ssa.Value(state) }, dom)
+	// trigger of a block: nearest dominating true edge of an input test at the cursor
+	isCursorSlice := func(v ssa.Value) bool {
+		sl, ok := v.(*ssa.Slice)
+		return ok && sl.Low == ssa.Value(idx) && sl.High == nil
+	}
+	triggerOf := func(b *ssa.BasicBlock) string {
+		best := ""
+		var bestBlk *ssa.BasicBlock
+		for _, g := range fn.Blocks {
+			iff := blockIf(g)
+			if iff == nil || !edgeDominates(g, 0, b) {
+				continue
+			}
+			t := ""
+			switch x := iff.Cond.(type) {
+			case *ssa.Call:
+				f := x.Call.StaticCallee()
+				if f == nil {
+					continue
+				}
+				switch {
+				case f.Name() == "hasBytePrefix" && len(x.Call.Args) == 2 && isCursorSlice(x.Call.Args[0]):
+					if s, ok := constString(x.Call.Args[1]); ok {
+						t = s
+					}
+				case f.Name() == "hasHTMLDeclarationPrefix" && isCursorSlice(x.Call.Args[0]):
+					t = "<!x"
+				}
+			case *ssa.BinOp:
+				if x.Op == token.EQL {
+					if ld, ok := x.X.(*ssa.UnOp); ok && ld.Op == token.MUL {
+						if ia, ok := ld.X.(*ssa.IndexAddr); ok && ia.Index == ssa.Value(idx) {
+							if k, ok := constInt(x.Y); ok {
+								t = string(rune(k))
+							}
+						}
+					}
+				}
+			}
+			if t == "" {
+				continue
+			}
+			// nearest = dominated by the previous best
+			if bestBlk == nil || bestBlk.Dominates(g) {
+				best, bestBlk = t, g
+			}
+		}
+		return best
+	}
+	var trans []frTransition
+	var expand func(v ssa.Value, src *ssa.BasicBlock, hdrEdge int, seen map[ssa.Value]bool)
+	expand = func(v ssa.Value, src *ssa.BasicBlock, hdrEdge int, seen map[ssa.Value]bool) {
+		if seen[v] {
+			return
+		}
+		seen[v] = true
+		if k, ok := constInt(v); ok {
+			adv := int64(-1)
+			if bo, ok := idx.Edges[hdrEdge].(*ssa.BinOp); ok && bo.Op == token.ADD && bo.X == ssa.Value(idx) {
+				adv, _ = constInt(bo.Y)
+			}
+			trans = append(trans, frTransition{from: reach[src], to: k, trigger: triggerOf(src), advance: adv, pos: firstPos([]*ssa.BasicBlock{src})})
+			return
+		}
+		if ph, ok := v.(*ssa.Phi); ok && ph != state {
+			for i, e := range ph.Edges {
+				expand(e, ph.Block().Preds[i], hdrEdge, seen)
+			}
+		}
+	}
+	for i, pr := range header.Preds {
+		if header.Dominates(pr) {
+			expand(state.Edges[i], pr, i, map[ssa.Value]bool{})
+		}
+	}
+	entry := map[int64][]frTransition{}
+	exits := map[int64]map[string]bool{}
+	for _, t := range trans {
+		if t.to != copyState && t.from[copyState] {
+			entry[t.to] = append(entry[t.to], t)
+		}
+		if t.to == copyState {
+			for k := range t.from {
+				if k != copyState {
+					if exits[k] == nil {
+						exits[k] = map[string]bool{}
+					}
+					exits[k][t.trigger] = true
+				}
+			}
+		}
+	}
+	required := map[string][]string{"<!--": {"-->", "--!>"}, "<![CDATA[": {">"}, "<!x": {">"}, "<?": {">"}}
+	var states []int64
+	for k := range entry {
+		states = append(states, k)
+	}
+	sort.Slice(states, func(i, j int) bool { return states[i] < states[j] })
+	var table []string
+	for _, k := range states {
+		var ex []string
+		for e := range exits[k] {
+			ex = append(ex, fmt.Sprintf("%q", e))
+		}
+		sort.Strings(ex)
+		for _, en := range entry[k] {
+			table = append(table, fmt.Sprintf("prefix %q (advance %d) → state %d → exits on %s", en.trigger, en.advance, k, strings.Join(ex, ",")))
+			key := fmt.Sprintf("filterRaw:state[%q]", en.trigger)
+			req, known := required[en.trigger]
+			if !known {
+				c.Undecided("FR-AUTOMATON", key, en.pos, fmt.Sprintf("a skip state is entered on the prefix %q, for which no tokenizer rule is recorded", en.trigger))
+				continue
+			}
+			var missing []string
+			for _, t := range req {
+				if !exits[k][t] {
+					missing = append(missing, fmt.Sprintf("%q", t))
+				}
+			}
+			why := fmt.Sprintf("exits on %s", strings.Join(ex, ","))
+			if len(missing) > 0 {
+				why = fmt.Sprintf("the state entered at %q is left only on %s, but an HTML tokenizer ends the construct at %s as well: a tag after that point is live for the browser and never shown to the predicate", en.trigger, strings.Join(ex, ","), strings.Join(missing, ","))
+			}
+			c.Check(len(missing) == 0, "FR-AUTOMATON", key, en.pos, why)
+			if en.trigger == "<!--" {
+				c.Check(en.advance >= 0 && en.advance <= 2, "FR-AUTOMATON", key+":entry", en.pos, fmt.Sprintf("entering the comment state consumes %d bytes; more than 2 (`<!`) hides the abruptly closed comments `<!-->` and `<!--->`, after which tags are live", en.advance))
+			}
+		}
+	}
+	sort.Strings(table)
+	c.Lists["filterRaw_skip_states"] = table
 }
